@@ -240,7 +240,8 @@ def main():
 
     # ---------- 2. proof obligations
     theorems = list(getattr(mod, "THEOREMS", []))
-    ok, out = build_lean(["bcder_model", "Bcder.Props." + prop])
+    ok, out = build_lean(["bcder_model", "Bcder.Props." + prop] +
+                         ["Bcder.Props." + x for x in getattr(mod, "EXTRA_MODULES", [])])
     audit_res = {}
     audit_raw = ""
     scan = source_scan()
